@@ -145,6 +145,10 @@ def shared(ctx):
     from rules.props import c03, c07
     core.import_rules(ctx, [c03.r2_batch_commutativity], "X03")
     core.import_rules(ctx, [c07.r1_header_map, c07.r5_tx_commitment], "X07")
+    # 'changing the proposer action makes the block rejected': the fee vote reaches the header only through the multiplier step, so two votes
+    # must never give the same step (C17.R2: the step is the exact formula in the vote; R3: no truncation / wrap on the way)
+    from rules.props import c17
+    core.import_rules(ctx, [c17.r2_formula, c17.r3_no_wrap], "X17")
 
 
 def r4_action_committed(ctx):
